@@ -84,21 +84,7 @@ def check(run):
                 stop = (not foreign) or any(isinstance(s, (ast.Break, ast.Return)) for s in foreign) or isinstance(nxt.test.ops[0], ast.Eq)
                 stops.append((f, nxt, stop))
     run.floor("C24.R3", 13)
-    # R5 the four appending writers continue one past the LAST stored ordinal (not the count of entries)
-    from ..linear import linform, same
-    for name in ("addIoVal", "putIoVals", "addIoSetVal", "putIoSetVals"):
-        f = ix.method(duror, name)
-        upd = [n for n in walk_local(f.node) if isinstance(n, (ast.Assign, ast.AugAssign)) and dotted(n.targets[0] if isinstance(n, ast.Assign) else n.target) == "ion"
-               and any(isinstance(p_, (ast.For, ast.While)) for p_ in _anc(n))]
-        ok = bool(upd)
-        txt = None
-        for n in upd:
-            txt = unparse(n)
-            ok = ok and isinstance(n, ast.Assign) and same(linform(n.value), {"cion": 1, 1: 1})
-        run.ob("C24.R5", "%s:next-ordinal-is-last-plus-one" % f.fq, ok, run.site(f, upd[0]) if upd else run.site(f),
-               "" if ok else "%s computes the next ordinal with `%s`; once a key's ordinals no longer start at 0 (after a pop / remove) anything but "
-               "`last ordinal + 1` lands on an ordinal that is still occupied and overwrites or loses a stored value" % (name, txt))
-    run.floor("C24.R5", 4)
+    ordinal_obs(run, "C24.R5")
     # R4 disjunction
     tokey = ix.func(DU, "SuberBase._tokey")
     validates = any(isinstance(n, ast.Raise) and any("sep" in unparse(t) for t in [parent(n)] if isinstance(t, ast.If) for _ in [0]) for n in walk_local(tokey.node)) or \
@@ -111,6 +97,26 @@ def check(run):
            "its prefix; all %d key-scoped scans stop at the first foreign key and neither suffix() nor _tokey() rejects or escapes "
            "such keys: after add('a',v0..v2) an add('a.0..01', x) makes get('a') return only v0,v1" % len(stops))
     run.floor("C24.R4", 1)
+
+
+def ordinal_obs(run, rule):
+    """the four appending writers continue one past the LAST stored ordinal (not the count of entries)"""
+    from ..linear import linform, same
+    ix = run.ix
+    duror = ix.cls(DU, "Duror")
+    for name in ("addIoVal", "putIoVals", "addIoSetVal", "putIoSetVals"):
+        f = ix.method(duror, name)
+        upd = [n for n in walk_local(f.node) if isinstance(n, (ast.Assign, ast.AugAssign)) and dotted(n.targets[0] if isinstance(n, ast.Assign) else n.target) == "ion"
+               and any(isinstance(p_, (ast.For, ast.While)) for p_ in _anc(n))]
+        ok = bool(upd)
+        txt = None
+        for n in upd:
+            txt = unparse(n)
+            ok = ok and isinstance(n, ast.Assign) and same(linform(n.value), {"cion": 1, 1: 1})
+        run.ob(rule, "%s:next-ordinal-is-last-plus-one" % f.fq, ok, run.site(f, upd[0]) if upd else run.site(f),
+               "" if ok else "%s computes the next ordinal with `%s`; once a key's ordinals no longer start at 0 (after a pop / remove) anything but "
+               "`last ordinal + 1` lands on an ordinal that is still occupied and overwrites or loses a stored value" % (name, txt))
+    run.floor(rule, 4)
 
 
 def _anc(n):
